@@ -859,14 +859,20 @@ class Network:
         )
         self.peer_connections.append(connection)
 
-        await connection.connect()
-        await connection.send_message(
-            PeerInit.Request(
-                self._settings.credentials.username,
-                typ,
-                ticket
+        try:
+            await connection.connect()
+            await connection.send_message(
+                PeerInit.Request(
+                    self._settings.credentials.username,
+                    typ,
+                    ticket
+                )
             )
-        )
+
+        except asyncio.CancelledError:
+            # Do not leave behind a connection nobody is going to use
+            await connection.disconnect(CloseReason.REQUESTED)
+            raise
 
         self._finalize_peer_connection(connection)
 
@@ -971,6 +977,11 @@ class Network:
                 )
             )
             raise PeerConnectionError("failed connect on user request")
+
+        except asyncio.CancelledError:
+            # Do not leave behind a connection nobody is going to use
+            await peer_connection.disconnect(CloseReason.REQUESTED)
+            raise
 
         self._finalize_peer_connection(peer_connection)
 
